@@ -756,12 +756,17 @@ func seqDNSSEC(ci int) string {
 func newMonitor(r *vlib.Run, ci int, seq bool) (*monitor, error) {
 	cs := confs[ci%len(confs)]
 	ups := &upstreams{}
-	// A listener that cannot bind (a port taken by another process between
-	// the stack picking it and the server binding it) is an environment
-	// failure: build the stack again, on freshly picked ports.
+	// A listener that cannot start is an environment failure — a port taken
+	// by another process between the stack picking it and the server binding
+	// it, or the box out of inotify instances (the TLS listeners' certificate
+	// watcher) while another check holds them: build the stack again a little
+	// later, on freshly picked ports. Still failing = inconclusive.
 	var st *stack.Stack
 	var err error
-	for attempt := 0; attempt < 3; attempt++ {
+	for attempt := 0; attempt < 4; attempt++ {
+		if attempt > 0 {
+			time.Sleep(time.Duration(attempt*2) * time.Second)
+		}
 		cfg := buildConfig(cs)
 		if seq {
 			cfg.DNSSEC = seqDNSSEC(ci)
